@@ -610,6 +610,7 @@ func c11Bubble(c c11Case) c11Result {
 }
 
 func c11Run(t *testing.T, c c11Case) (string, error) {
+	defer evid.DeadlockWatch("C11", "TestC11Faults", c, "kmip-go/kmipclient")()
 	var res c11Result
 	perr := safely(func() error {
 		synctest.Test(t, func(st *testing.T) { res = c11Bubble(c) })
